@@ -316,21 +316,26 @@ def keptIdx (rows : List Row) (groups : List (List String)) : List Nat :=
   (List.range groups.length).filter (fun g => !(attached rows groups g).isEmpty)
 
 /-- `add_precursor_quants` followed by `append_quant_columns` (MaxQuant writer, LFQ / annotation /
-    coverage columns left out) -/
-def quantify (rows : List Row) (groups : List (List String)) (level : Rat)
-    (ibaq : List (String × Nat)) : Except String Output := do
+    coverage columns left out), for `S` SILAC channels -/
+def quantifyWith (S : Nat) (rows : List Row) (groups : List (List String)) (level : Rat)
+    (ibaq : List (String × Nat)) : Output :=
   let exps := experiments rows
-  let S ← silacChannels (nSilac rows)
   let T := nTmt rows
   let c := cutoffOf rows groups level
-  pure
-    { experiments := exps
-      nSilac := nSilac rows
-      nTmt := T
-      peps := pepList rows groups
-      cutoff := c
-      attached := (List.range groups.length).map (attached rows groups)
-      groups := (keptIdx rows groups).map (fun g =>
-        groupOut exps S T c ibaq (groups.getD g []) (retain c (attached rows groups g))) }
+  { experiments := exps
+    nSilac := nSilac rows
+    nTmt := T
+    peps := pepList rows groups
+    cutoff := c
+    attached := (List.range groups.length).map (attached rows groups)
+    groups := (keptIdx rows groups).map (fun g =>
+      groupOut exps S T c ibaq (groups.getD g []) (retain c (attached rows groups g))) }
+
+/-- the whole sequence; rejects what `get_silac_channels` rejects -/
+def quantify (rows : List Row) (groups : List (List String)) (level : Rat)
+    (ibaq : List (String × Nat)) : Except String Output :=
+  match silacChannels (nSilac rows) with
+  | .error e => .error e
+  | .ok S => .ok (quantifyWith S rows groups level ibaq)
 
 end PgFdr.C12
